@@ -640,8 +640,20 @@ class Interp:
             if isinstance(subject, (str, bytes, bytearray)) or not isinstance(subject, (tuple, list)):
                 return False
             pats = pat.patterns
-            if any(isinstance(p, ast.MatchStar) for p in pats):
-                raise Unsupported('star pattern')
+            stars = [i for i, p in enumerate(pats) if isinstance(p, ast.MatchStar)]
+            if stars:
+                i = stars[0]
+                after = len(pats) - i - 1
+                if len(subject) < len(pats) - 1:
+                    return False
+                head, mid, tail = subject[:i], subject[i:len(subject) - after], subject[len(subject) - after:] if after else []
+                if not all(self.match(p, s_, env, binds) for p, s_ in zip(pats[:i], head)):
+                    return False
+                if not all(self.match(p, s_, env, binds) for p, s_ in zip(pats[i + 1:], tail)):
+                    return False
+                if pats[i].name is not None:
+                    binds[pats[i].name] = list(mid)
+                return True
             if len(pats) != len(subject):
                 return False
             return all(self.match(p, s, env, binds) for p, s in zip(pats, subject))
